@@ -166,6 +166,11 @@ type Action struct {
 	CreateFee *FeeJ    `json:"createFee,omitempty"`
 	BidFee    *FeeJ    `json:"bidFee,omitempty"`
 	ExtPeriod int64    `json:"extPeriod,omitempty"`
+	// Query
+	Q       string `json:"q,omitempty"`
+	Status  string `json:"status,omitempty"`
+	Bidder  string `json:"bidder,omitempty"`
+	Matched string `json:"matched,omitempty"`
 	// C17: which listener fails at which hook ("" = none)
 	HookFail string `json:"hookFail,omitempty"`
 	HookPos  int    `json:"hookPos,omitempty"`
